@@ -10,6 +10,7 @@ x/tools driver with parallel passes vs sequential passes; (c) recorded analyzer 
 """
 import json
 import os
+import shutil
 import subprocess
 
 import vlib
@@ -46,7 +47,11 @@ def run(ctx):
 
     # (a) recorded runs of the real binary
     binp = ctx.build_repo_bin("cmd/go-critic")
-    w = wsmod.make(ctx, "ws_c04", 5 if thorough else 3)
+    # regexp-, size- and generics-heavy packages are always present: shared parsers / size caches are classic shared state
+    fixed = ["badRegexp", "regexpSimplify", "regexpPattern", "rangeValCopy", "hugeParam"]
+    rest = [n for n in wsmod.GOOD if n not in fixed]
+    ctx.rng.shuffle(rest)
+    w = wsmod.make(ctx, "ws_c04", 8 if thorough else 6, pick=fixed + rest, adv=("sizes", "generics", "shapes"))
     ncpu = os.cpu_count() or 4
     ks = [1, 2, 3, ncpu, 200] if thorough else [1, 2, ncpu]
     base = None
@@ -71,6 +76,8 @@ def run(ctx):
         traces += 1
         if not ok:
             line = open(tf).read().splitlines()[bad - 1] if bad and bad <= nl else "<end>"
+            os.makedirs(os.path.join(vlib.REPLAYS, "C04"), exist_ok=True)
+            shutil.copy(tf, os.path.join(vlib.REPLAYS, "C04", "rejected_k%d.ndjson" % k))
             ctx.fail("TraceRejected", "TraceFanOut rejects the recorded run at -concurrency %d, line %d: %s" % (k, bad, line),
                      {"k": k, "line": bad, "event": line, "workspace": w["examples"]})
     # canary: the K=2 run claimed as K=1 must be rejected (when it really overlapped) - use the widest run
